@@ -349,6 +349,12 @@ func runC20(c *Ctx) {
 			})
 			for _, a := range apps {
 				dd := fl.Dominated(a.Site, nil, func(at Atom) bool {
+					// `!found`, or the scan itself: !slices.ContainsFunc(broken, …)
+					if call, isCall := ast.Unparen(at.E).(*ast.CallExpr); isCall && !at.Truth && at.Tag == nil && len(call.Args) == 2 {
+						if fn := Callee(info, call); fn != nil && fn.Pkg() != nil && fn.Pkg().Path() == "slices" && (fn.Name() == "ContainsFunc" || fn.Name() == "Contains") && objOf(info, call.Args[0]) == brokenObj {
+							return true
+						}
+					}
 					id, ok := ast.Unparen(at.E).(*ast.Ident)
 					return ok && !at.Truth && info.TypeOf(id).String() == "bool"
 				})
